@@ -14,14 +14,15 @@ class C03(S.SchedCheck):
     technique = ("Lean 4 theorems over the shared executable scheduler model, time type abstract with a law class LawfulTyme (instances proved for Nat and Int, "
                  "none for Float); differential run of the compiled model at Float against hio.base.doing with tymes compared as IEEE-754 bit patterns; "
                  "independent oracle recomputing every doer's due sequence from its script with Python float arithmetic")
-    level_text = ("Proved for every program, limit, fuel and time type (no arithmetic law needed): tick_exact / tick_exact_run (tyme before cycle k and the final tyme are "
-                  "start + tock iterated with the abstract +), cycle_events_observe_now, once_per_cycle_in_order (recur ids of one cycle are a sublist of the live "
-                  "forest in deque order, at any nesting depth, with ops and faults), due_cumulative and asap_next_cycle as one-step facts at every scheduler level "
-                  "(new due tyme r + t independent of now; a not-due doer is carried unchanged; asap due tyme = now + scheduler tock), and for flat op-free programs the "
-                  "closed form flat_schedule: a doer's recur tymes are a function of its own script only.  Under LawfulTyme: asap_due_in_next_cycle (Doist level and "
-                  "inside a tock-0 DoDoer), stays_due.  PARTIAL: for doers nested in tock-0 DoDoers the cumulative clause holds under guard G04 "
-                  "(nested_schedule_partial, via C04's simulation); due_cumulative_fails_nested is the decided witness of pre-finding F46 on the model, replayed on the "
-                  "real code in corpus() and recorded as known finding C03-K1.")
+    level_text = ("Proved for every time type, program (ops, faults, nesting), limit and fuel, no arithmetic law needed: tick_exact / tick_exact_run (tyme before cycle k and the "
+                  "final tyme are start + tock iterated with the abstract +); once_per_cycle_in_order / once_per_cycle (in one pass of ANY scheduler every event carries its current tyme and "
+                  "the resumed ids are a sublist of the live forest in deque order); one-step due rules tied to runCycle by leaf_pass_is_stepLeaf: due_cumulative (new due = r + x, independent "
+                  "of now and of the scheduler tock), waits_until_due, resumed_when_due, asap_due_tyme; over cycles, for flat op-free deques: flat_cycles_independent / flat_cycle_events "
+                  "(non-interference: each doer's schedule is a function of its own script) and due_cumulative_first_cycle (no event while tyme < r + x, resumed in the FIRST cycle whose tyme "
+                  ">= r + x).  Under LawfulTyme and 0 <= tock: asap_next_cycle (under the Doist and inside a tock-0 DoDoer), stays_due.  PARTIAL: for doers nested in tock-0 DoDoers (any depth) "
+                  "the schedule equals the flat one under guard G04 = scripts positive* asap* (nested_schedule_partial, via the C04 simulation); due_cumulative_fails_nested is the decided "
+                  "witness of pre-finding F46 on the model, replayed on the real code in corpus() and recorded as known finding C03-K1.  That deque order is enter order is C02's invariant; "
+                  "for regrouped op-free programs it is part of the C04 simulation.")
     level_note = ("Float is never given a LawfulTyme instance: that IEEE doubles satisfy the laws on the finite non-NaN values used is an assumption; "
                   "the correspondence runs at Float with non-dyadic tocks.  Real-time mode is C07.")
     profiles = ("time", "plain")
@@ -60,6 +61,10 @@ class C03(S.SchedCheck):
                 yield S.gen_case(rng, rng.choice(self.profiles))
             else:
                 yield T.gen_timed(rng, rng.choice(["flat", "flat", "nested", "nested", "hetero", "f46", "g04", "g04"]))
+
+    def run_impl(self, case):
+        T.settle_heap()
+        return T.TObs(S.run_program(case))
 
     def nontrivial(self, case, obs):
         d = obs.d
